@@ -43,6 +43,11 @@ func (core *JApiCore) ExpandRawPathVariableShortcuts() *jerr.JApiError {
 				return r.pathDirective.KeywordError(fmt.Sprintf(`User type "%s" not found`, typeName))
 			}
 
+			if ut.Schema.ContentJSight == nil {
+				// i.e. the user type with the regex notation
+				return r.pathDirective.KeywordError("the body of the Path DIRECTIVE must be an object")
+			}
+
 			r.schema = ut.Schema // copy schema
 		}
 
